@@ -45,6 +45,7 @@ def main():
     checks = checks or [prop]
     dst = os.path.join(V, 'seeded', tag)
     os.makedirs(dst, exist_ok=True)
+    kept = {}
     try:  # notes added after the delivery live in the kept meta.json only: carry them over
         kept = json.load(open(os.path.join(dst, 'meta.json')))
         for k in ('first_run', 'rebased'):
@@ -77,7 +78,7 @@ def main():
             return finish(dst, meta, res, ran)
         changed = sh(['git', '-C', wt, 'diff', '--name-only'])[1].split()
         if checkonly:
-            old = json.load(open(os.path.join(dst, 'meta.json')))
+            old = kept  # the kept meta.json as it was before the delivery was copied over it
             res = dict(old.get('confirmation', {}), applies=True)
             ran = list(old.get('what_was_run', []))
             rep = {}
